@@ -72,9 +72,30 @@ impl Drop for LzVal {
     }
 }
 
+/// a thread-local whose destructor uses thread-local 0 of the same thread
+/// (try_with during the teardown of the thread)
+pub struct TlsDropper(usize);
+
+impl TlsDropper {
+    fn new() -> TlsDropper {
+        let b = CUR_BODY.with(|c| c.get());
+        out(format!("I tls 2 {}", b));
+        TlsDropper(b)
+    }
+}
+
+impl Drop for TlsDropper {
+    fn drop(&mut self) {
+        let r = TL0.try_with(|v| v.0);
+        out(format!("X tls 2 {} {}", self.0, if r.is_ok() { "ok" } else { "gone" }));
+        out(format!("D tls 2 {}", self.0));
+    }
+}
+
 loom::thread_local! {
     static TL0: TlsVal = TlsVal::new(0);
     static TL1: TlsVal = TlsVal::new(1);
+    static TL2: TlsDropper = TlsDropper::new();
 }
 
 loom::lazy_static! {
@@ -183,7 +204,8 @@ fn apply(op: RmwOp, x: usize, v: usize) -> usize {
     }
 }
 
-pub fn run_body(p: &'static Prog, t: &'static Table, b: usize) {
+pub fn run_body(p: &'static Prog, t: &'static Table, b: usize, my_waker: Option<std::task::Waker>) {
+    let mut my_waker = my_waker;
     let mut guards: Vec<Guard> = Vec::new();
     for (pc, op) in p.bodies[b].iter().enumerate() {
         CUR_BODY.with(|c| c.set(b));
@@ -194,7 +216,7 @@ pub fn run_body(p: &'static Prog, t: &'static Table, b: usize) {
                 if c >= p.bodies.len() || t.handles[c].get().is_some() {
                     bad("spawn target");
                 }
-                let jh = loom::thread::spawn(move || run_body(p, t, c));
+                let jh = loom::thread::spawn(move || run_body(p, t, c, None));
                 *t.threads[c].get() = Some(jh.thread().clone());
                 *t.handles[c].get() = Some(jh);
                 res("-".into());
@@ -608,6 +630,41 @@ pub fn run_body(p: &'static Prog, t: &'static Table, b: usize) {
                 }));
                 res("-".into());
             }
+            Op::BlockOnSpawn(a, v, b1, b2) => {
+                let (a, v, b1, b2) = (*a, *v, *b1, *b2);
+                let at = t.atomic(a);
+                let mut first = true;
+                loom::future::block_on(std::future::poll_fn(|cx| {
+                    out(format!("P {} {}", b, pc));
+                    if at.load(Ordering::Acquire) == v {
+                        return std::task::Poll::Ready(());
+                    }
+                    if first {
+                        // the first Pending poll hands one waker to each waking thread
+                        first = false;
+                        for c in [b1, b2] {
+                            if c != 0 {
+                                if c >= p.bodies.len() || t.handles[c].get().is_some() {
+                                    bad("spawn target");
+                                }
+                                let wk = cx.waker().clone();
+                                let jh = loom::thread::spawn(move || run_body(p, t, c, Some(wk)));
+                                *t.threads[c].get() = Some(jh.thread().clone());
+                                *t.handles[c].get() = Some(jh);
+                            }
+                        }
+                    }
+                    std::task::Poll::Pending
+                }));
+                res("-".into());
+            }
+            Op::WakeMine => match my_waker.take() {
+                Some(wk) => {
+                    wk.wake();
+                    res("1".into());
+                }
+                None => res("0".into()),
+            },
             Op::Wake(w) => match &t.objs[*w] {
                 Obj::Waker(x) => {
                     x.wake();
@@ -627,7 +684,8 @@ pub fn run_body(p: &'static Prog, t: &'static Table, b: usize) {
             Op::TlsWith(k) => {
                 let r = match k {
                     0 => TL0.try_with(|v| v.0),
-                    _ => TL1.try_with(|v| v.0),
+                    1 => TL1.try_with(|v| v.0),
+                    _ => TL2.try_with(|v| v.0),
                 };
                 res(if r.is_ok() { "-".into() } else { "gone".into() });
             }
@@ -661,12 +719,14 @@ pub fn run_body(p: &'static Prog, t: &'static Table, b: usize) {
     while let Some(g) = guards.pop() {
         drop(g);
     }
+    // a waker that was handed to this thread and never used is dropped with the closure
+    drop(my_waker);
 }
 
 pub fn run_main(p: &'static Prog) {
     let t = build_table(p);
     *t.threads[0].get() = Some(loom::thread::current());
-    run_body(p, t, 0);
+    run_body(p, t, 0, None);
 }
 
 #[allow(dead_code)]
